@@ -107,6 +107,15 @@ for name, edit in CHANGED:
     except T.TranslateError as e:
         print(f"FAIL  should be accepted: {name}: {e}")
         fail += 1
+# evaluation order: a field read BEFORE a later operand updates self is bound before the update
+probe = sub("    fn next(&mut self) -> Option<Self::Item> {\n        self.bounded.pop()",
+            "    fn next(&mut self) -> Option<Self::Item> {\n        let (a, b) = (self.bounded.len, self.bounded.pop());\n        if a == 0 { return None; }\n        b")(SRC)
+out, _ = T.translate_text(probe)
+if "let t1 := (len s) in\n  let* (s, t2) := Bounded_pop s in" in out:
+    print("ok    evaluation order: read of self.len bound before the later pop")
+else:
+    print("FAIL  evaluation order probe")
+    fail += 1
 r = T.sensitivity(SRC)
 print(f"sensitivity: {r['sites']} single-token edits, {r['rejected']} rejected, {r['changed']} change the output, {len(r['ignored'])} ignored")
 for l in r["ignored"]:
